@@ -458,6 +458,23 @@ fn select_n_nodes(
         dc_count -= 1;
     }
 
+    // A candidate which is rejected above (the local node or a node already taken) still
+    // uses up part of its data center's share, and where that happens depends on the
+    // rotating cursors, so top up from every other live node before reporting a shortage.
+    if selected_nodes.len() < n {
+        for dc_nodes in data_centers.values() {
+            for node in dc_nodes.get_nodes() {
+                if selected_nodes.len() >= n {
+                    break;
+                }
+
+                if *node != local_node && !selected_nodes.contains(node) {
+                    selected_nodes.push(*node);
+                }
+            }
+        }
+    }
+
     if selected_nodes.len() >= n {
         debug!(selected_node = ?selected_nodes, "Nodes have been selected for the given parameters.");
         Ok(selected_nodes)
